@@ -90,6 +90,13 @@ func checkConjCollider2(c conj2Case, o *kit.Obs) error {
 	f := math.Sqrt(math.Abs(l[0]*l[3] - l[1]*l[2]))
 	orig := s.Build()
 	tc := model2d.TransformCollider(x.build().(model2d.DistTransform), orig)
+	if len(x.Parts) >= 2 && len(c.Pts) > 0 && math.Float64bits(c.Pts[0][1])%2 == 0 {
+		tc = orig
+		for _, part := range x.Parts {
+			tc = model2d.TransformCollider(part.build().(model2d.DistTransform), tc)
+		}
+		o.Label("nested-wrappers")
+	}
 	what := fmt.Sprintf("2D TransformCollider(%+v, %s %+v)", x, s.Kind, s)
 	if f != 1 {
 		o.Label("scaled")
